@@ -22,7 +22,6 @@ var (
 	addrTouch     = common.HexToAddress("0x0000000000000000000000000000000000c60004") // zero-value CALL to calldata address, then INVALID / STOP
 	addrEffectsSD = common.HexToAddress("0x0000000000000000000000000000000000c60005") // effects instance that may self-destruct
 	addrSuicider0 = common.HexToAddress("0x0000000000000000000000000000000000c60010") // + i, i < nSuiciders
-	addrCollide   = common.HexToAddress("0x0000000000000000000000000000000000c600ff") // unused marker
 )
 
 const (
@@ -32,9 +31,8 @@ const (
 )
 
 const (
-	opLOG1     = gen.LOG0 + 1
-	opDUP1     = gen.DUP1
-	opCOINBASE = 0x41
+	opLOG1 = gen.LOG0 + 1
+	opDUP1 = gen.DUP1
 )
 
 // Effects modes.
@@ -46,7 +44,6 @@ const (
 	modeSelfdestruct
 	modeUnderflow
 	modeBadJump
-	nModes
 )
 
 var modeNames = []string{"stop", "revert", "invalid", "spin", "selfdestruct", "underflow", "badjump"}
@@ -152,7 +149,7 @@ func refCreateAddress(from common.Address, nonce uint64) common.Address {
 type sender struct {
 	Key  *btcec.PrivateKey
 	Addr common.Address
-	Kind string // rich | whale | poor | zero | collide
+	Kind string // rich | whale | poor | zero | inv | collide
 }
 
 type world struct {
@@ -233,6 +230,6 @@ func newWorld(r *fw.Rand, cfg *params.ChainConfig) *world {
 	return w
 }
 
-func word(v uint64) []byte              { return gen.WordU(v) }
-func wordA(a common.Address) []byte     { return gen.WordAddr(a) }
+func word(v uint64) []byte                             { return gen.WordU(v) }
+func wordA(a common.Address) []byte                    { return gen.WordAddr(a) }
 func effectsData(mode uint64, t common.Address) []byte { return gen.Cat(word(mode), wordA(t)) }
